@@ -1,9 +1,364 @@
-//! group `catalog` — stub (not built yet).
-#![allow(unused)]
+//! group `catalog` — C22: `HashMapTreeCatalog` (src/db/hash_map_tree/catalog.rs), the default
+//! `Catalog::get` (src/db/catalog.rs) and `SingleZoneCatalog` (src/db/single_zone_catalog.rs).
+//!
+//! One case = one whole history (see lean/QV/Driver/Catalog.lean for the syntax). `Loaded`
+//! entries hold a real `Arc<HashMapTreeZone>`; the metadata is `(id, serial)` where `serial` is
+//! the index of the inserting step, and every `Loaded` entry read back is checked to still hold
+//! the very `Arc` that was inserted with it (pointer identity) — a mismatch prints `!z`.
 use crate::common::*;
+use quandary::class::Class;
+use quandary::db::catalog::Entry;
+use quandary::db::zone::GluePolicy;
+use quandary::db::{Catalog, HashMapTreeCatalog, HashMapTreeZone, SingleZoneCatalog, Zone};
+use quandary::name::Name;
+use std::sync::Arc;
 
-pub fn run(_op: &str, _a: &[&str]) -> Option<String> {
-    None
+type Meta = (u64, usize);
+type E = Entry<HashMapTreeZone, Meta>;
+
+fn name_of(hexs: &str) -> Option<Box<Name>> {
+    Name::try_from_uncompressed_all(&unhex(hexs)?).ok()
 }
 
-pub fn gen(_rng: &mut Rng, _thorough: bool, _em: &mut Emitter) {}
+struct Zones(Vec<Option<Arc<HashMapTreeZone>>>);
+
+fn make_entry(f: &[&str], serial: usize, zones: &mut Zones) -> Option<E> {
+    let [n, c, i, k] = f else { return None };
+    let name = name_of(n)?;
+    let class = Class::from(c.parse::<u16>().ok()?);
+    let id = i.parse::<u64>().ok()?;
+    while zones.0.len() <= serial {
+        zones.0.push(None);
+    }
+    Some(match *k {
+        "L" => {
+            let z = Arc::new(HashMapTreeZone::new(name, class, GluePolicy::Narrow));
+            zones.0[serial] = Some(z.clone());
+            Entry::Loaded(z, (id, serial))
+        }
+        "N" => Entry::NotYetLoaded(name, class, (id, serial)),
+        "F" => Entry::FailedToLoad(name, class, (id, serial)),
+        _ => return None,
+    })
+}
+
+fn show_entry(e: &E, zones: &Zones) -> String {
+    let (id, serial) = *e.metadata();
+    let (kind, ok) = match e {
+        Entry::Loaded(z, _) => (
+            "L",
+            zones.0.get(serial).and_then(|o| o.as_ref()).map_or(false, |t| Arc::ptr_eq(t, z))
+                && z.name() == e.name()
+                && z.class() == e.class(),
+        ),
+        Entry::NotYetLoaded(..) => ("N", true),
+        Entry::FailedToLoad(..) => ("F", true),
+    };
+    format!(
+        "{}:{}:{}:{}{}",
+        hex(e.name().wire_repr()),
+        u16::from(e.class()),
+        id,
+        kind,
+        if ok { "" } else { "!z" }
+    )
+}
+
+fn show_opt(e: Option<&E>, zones: &Zones) -> String {
+    e.map_or("-".to_string(), |e| show_entry(e, zones))
+}
+
+fn name_class(f: &[&str]) -> Option<(Box<Name>, Class)> {
+    let [n, c] = f else { return None };
+    Some((name_of(n)?, Class::from(c.parse::<u16>().ok()?)))
+}
+
+fn run_cat(history: &str) -> Option<String> {
+    let mut cat: HashMapTreeCatalog<HashMapTreeZone, Meta> = HashMapTreeCatalog::new();
+    let mut zones = Zones(Vec::new());
+    let mut out: Vec<String> = Vec::new();
+    for (serial, step) in history.split(';').enumerate() {
+        let f: Vec<&str> = step.split(':').collect();
+        match f[0] {
+            "it" if f.len() == 1 => {
+                let mut v: Vec<String> = cat.iter().map(|e| show_entry(e, &zones)).collect();
+                v.sort();
+                out.push(if v.is_empty() { "-".into() } else { v.join(",") });
+            }
+            "i" => {
+                let e = make_entry(&f[1..], serial, &mut zones)?;
+                let old = cat.insert(e);
+                out.push(show_opt(old.as_ref(), &zones));
+            }
+            "r" => {
+                let (n, c) = name_class(&f[1..])?;
+                let old = cat.remove(&n, c);
+                out.push(show_opt(old.as_ref(), &zones));
+            }
+            "l" => {
+                let (n, c) = name_class(&f[1..])?;
+                out.push(show_opt(cat.lookup(&n, c), &zones));
+            }
+            "g" => {
+                let (n, c) = name_class(&f[1..])?;
+                out.push(show_opt(cat.get(&n, c), &zones));
+            }
+            _ => return None,
+        }
+    }
+    Some(format!("ok {}", out.join(";")))
+}
+
+fn run_szc(entry: &str, history: &str) -> Option<String> {
+    let mut zones = Zones(Vec::new());
+    let f: Vec<&str> = entry.split(':').collect();
+    let e = make_entry(&f, 0, &mut zones)?;
+    let cat = SingleZoneCatalog::new(e);
+    let mut out: Vec<String> = Vec::new();
+    for step in history.split(';') {
+        let f: Vec<&str> = step.split(':').collect();
+        let (n, c) = name_class(&f[1..])?;
+        match f[0] {
+            "l" => out.push(show_opt(cat.lookup(&n, c), &zones)),
+            "g" => out.push(show_opt(cat.get(&n, c), &zones)),
+            _ => return None,
+        }
+    }
+    Some(format!("ok {}", out.join(";")))
+}
+
+pub fn run(op: &str, a: &[&str]) -> Option<String> {
+    Some(match (op, a) {
+        ("cat", [h]) => {
+            let h = h.to_string();
+            guarded(move || run_cat(&h).unwrap_or_else(|| "bad-op".into()))
+        }
+        ("szc", [e, h]) => {
+            let (e, h) = (e.to_string(), h.to_string());
+            guarded(move || run_szc(&e, &h).unwrap_or_else(|| "bad-op".into()))
+        }
+        _ => return None,
+    })
+}
+
+// ------------------------------------------------------------------------------------------
+// generators
+// ------------------------------------------------------------------------------------------
+
+/// wire hex of a name given as labels, left to right
+fn wire(labels: &[&[u8]]) -> String {
+    let mut v = Vec::new();
+    for l in labels {
+        v.push(l.len() as u8);
+        v.extend_from_slice(l);
+    }
+    v.push(0);
+    hex(&v)
+}
+
+fn emit(em: &mut Emitter, case: String) {
+    let mut it = case.split(' ');
+    let op = it.next().unwrap();
+    let args: Vec<&str> = it.collect();
+    let r = run(op, &args).unwrap();
+    em.emit(&case, &r);
+}
+
+const KINDS: [&str; 3] = ["L", "N", "F"];
+
+/// every history of exactly `len` mutating ops (insert x / remove x for x in `names`), followed
+/// by a full observation: iter, then get and lookup of every probe name
+fn exhaustive(em: &mut Emitter, names: &[String], probes: &[String], class: u16, max_len: usize) {
+    let nops = names.len() * 2;
+    let mut obs = String::from("it");
+    for p in probes {
+        obs.push_str(&format!(";g:{p}:{class};l:{p}:{class}"));
+    }
+    for len in 0..=max_len {
+        let total = nops.pow(len as u32);
+        for code in 0..total {
+            let mut c = code;
+            let mut steps: Vec<String> = Vec::with_capacity(len + 1);
+            for i in 0..len {
+                let o = c % nops;
+                c /= nops;
+                let n = &names[o / 2];
+                if o % 2 == 0 {
+                    steps.push(format!("i:{n}:{class}:{}:{}", i + 1, KINDS[(i + o / 2) % 3]));
+                } else {
+                    steps.push(format!("r:{n}:{class}"));
+                }
+            }
+            steps.push(obs.clone());
+            emit(em, format!("cat {}", steps.join(";")));
+        }
+    }
+}
+
+const LABELS: [&[u8]; 7] = [b"a", b"b", b"c", b"A", b"B", b"*", b"a-1"];
+const CLASSES: [u16; 3] = [1, 3, 4];
+
+fn rand_name(rng: &mut Rng) -> Vec<&'static [u8]> {
+    // small alphabet, depth 0..=4, biased towards the first three labels so that names nest
+    let depth = match rng.below(10) {
+        0 => 0,
+        1..=3 => 1,
+        4..=6 => 2,
+        7..=8 => 3,
+        _ => 4,
+    };
+    (0..depth).map(|_| if rng.chance(3, 4) { LABELS[rng.below(3)] } else { *rng.pick(&LABELS) }).collect()
+}
+
+fn flip_case(l: &'static [u8]) -> &'static [u8] {
+    match l {
+        b"a" => b"A",
+        b"b" => b"B",
+        b"A" => b"a",
+        b"B" => b"b",
+        b"c" => b"C",
+        x => x,
+    }
+}
+
+/// every name within two labels of `n`: n, its two nearest ancestors, children and grandchildren
+fn neighbourhood(n: &[&'static [u8]]) -> Vec<Vec<&'static [u8]>> {
+    let mut out = vec![n.to_vec()];
+    if !n.is_empty() {
+        out.push(n[1..].to_vec());
+    }
+    if n.len() >= 2 {
+        out.push(n[2..].to_vec());
+    }
+    let alpha: [&[u8]; 4] = [b"a", b"b", b"c", b"*"];
+    for x in alpha {
+        let mut c = vec![x];
+        c.extend_from_slice(n);
+        out.push(c.clone());
+        for y in alpha {
+            let mut g = vec![y];
+            g.extend_from_slice(&c);
+            out.push(g);
+        }
+    }
+    out
+}
+
+fn random_history(rng: &mut Rng, em: &mut Emitter) {
+    let nsteps = rng.range(3, 24);
+    let mut pool: Vec<(Vec<&'static [u8]>, u16)> = Vec::new();
+    let mut steps: Vec<String> = Vec::new();
+    let mut next_id = 1;
+    for _ in 0..nsteps {
+        let reuse = !pool.is_empty() && rng.chance(1, 2);
+        let (mut n, c) = if reuse {
+            let (n, c) = rng.pick(&pool).clone();
+            // the same name, an ancestor, or a descendant of a known name
+            match rng.below(4) {
+                0 if !n.is_empty() => (n[1..].to_vec(), c),
+                1 => {
+                    let mut m = vec![LABELS[rng.below(3)]];
+                    m.extend_from_slice(&n);
+                    (m, c)
+                }
+                _ => (n, c),
+            }
+        } else {
+            let c = if rng.chance(1, 12) { rng.below(65536) as u16 } else { *rng.pick(&CLASSES) };
+            (rand_name(rng), c)
+        };
+        if rng.chance(1, 4) {
+            n = n.iter().map(|l| if rng.chance(1, 2) { flip_case(l) } else { *l }).collect();
+        }
+        let c = if rng.chance(1, 10) { *rng.pick(&CLASSES) } else { c };
+        let w = wire(&n);
+        if rng.chance(3, 5) {
+            steps.push(format!("i:{w}:{c}:{next_id}:{}", rng.pick(&KINDS)));
+            next_id += 1;
+            pool.push((n.clone(), c));
+        } else {
+            steps.push(format!("r:{w}:{c}"));
+        }
+        // observations
+        if rng.chance(2, 3) {
+            let mut nb = neighbourhood(&n);
+            if rng.chance(1, 2) {
+                // a sample is enough most of the time
+                let keep = rng.range(3, 8);
+                while nb.len() > keep {
+                    let i = rng.below(nb.len());
+                    nb.swap_remove(i);
+                }
+            }
+            for m in nb {
+                if m.len() > 6 {
+                    continue;
+                }
+                let m: Vec<&[u8]> = m.iter().map(|l| if rng.chance(1, 6) { flip_case(l) } else { *l }).collect();
+                let w = wire(&m);
+                let cc = if rng.chance(1, 8) { *rng.pick(&CLASSES) } else { c };
+                steps.push(format!("l:{w}:{cc}"));
+                steps.push(format!("g:{w}:{cc}"));
+            }
+        }
+        if rng.chance(1, 2) {
+            steps.push("it".into());
+        }
+    }
+    steps.push("it".into());
+    emit(em, format!("cat {}", steps.join(";")));
+}
+
+fn random_single(rng: &mut Rng, em: &mut Emitter) {
+    let n = rand_name(rng);
+    let c = *rng.pick(&CLASSES);
+    let entry = format!("{}:{c}:{}:{}", wire(&n), rng.range(1, 99), rng.pick(&KINDS));
+    let mut steps = Vec::new();
+    let mut qs = neighbourhood(&n);
+    for _ in 0..4 {
+        qs.push(rand_name(rng));
+    }
+    for m in qs {
+        let m: Vec<&[u8]> = m.iter().map(|l| if rng.chance(1, 4) { flip_case(l) } else { *l }).collect();
+        let cc = if rng.chance(1, 6) { *rng.pick(&CLASSES) } else { c };
+        let w = wire(&m);
+        steps.push(format!("l:{w}:{cc}"));
+        steps.push(format!("g:{w}:{cc}"));
+    }
+    emit(em, format!("szc {entry} {}", steps.join(";")));
+}
+
+pub fn gen(rng: &mut Rng, thorough: bool, em: &mut Emitter) {
+    // 0. regression witness of the repaired defect D09 and the unit tests' histories
+    emit(em, "cat i:016100:1:1:L;i:0162016100:1:2:N;r:0162016100:1;g:016100:1;l:0163016100:1;it".into());
+    emit(em, "cat i:016100:1:1:N;i:0162016100:1:2:N;r:016100:1;g:016100:1;g:0162016100:1;r:0162016100:1;it".into());
+    emit(em, "cat r:016100:1;it;l:00:1".into());
+
+    // 1. exhaustive histories over four nested names
+    //    chain  . ⊃ a. ⊃ b.a. ⊃ c.b.a.      tree  a. ⊃ {b.a. ⊃ d.b.a., c.a.}
+    let (max_chain, max_tree) = if thorough { (5, 5) } else { (5, 4) };
+    let chain = vec![wire(&[]), wire(&[b"a"]), wire(&[b"b", b"a"]), wire(&[b"c", b"b", b"a"])];
+    let mut chain_probes = chain.clone();
+    chain_probes.push(wire(&[b"d", b"c", b"b", b"a"]));
+    chain_probes.push(wire(&[b"x", b"a"]));
+    chain_probes.push(wire(&[b"C", b"B", b"A"]));
+    exhaustive(em, &chain, &chain_probes, 1, max_chain);
+    let tree = vec![wire(&[b"a"]), wire(&[b"b", b"a"]), wire(&[b"c", b"a"]), wire(&[b"d", b"b", b"a"])];
+    let mut tree_probes = tree.clone();
+    tree_probes.push(wire(&[]));
+    tree_probes.push(wire(&[b"x", b"d", b"b", b"a"]));
+    tree_probes.push(wire(&[b"d", b"c", b"a"]));
+    tree_probes.push(wire(&[b"B", b"a"]));
+    exhaustive(em, &tree, &tree_probes, 4, max_tree);
+
+    // 2. random histories: nested names over a small alphabet, case variants, three classes
+    let n = if thorough { 40_000 } else { 2_500 };
+    for _ in 0..n {
+        random_history(rng, em);
+    }
+    // 3. SingleZoneCatalog
+    let n = if thorough { 10_000 } else { 800 };
+    for _ in 0..n {
+        random_single(rng, em);
+    }
+}
